@@ -66,6 +66,8 @@ def run(F, chk):
     check_b5(F, lib, B5)
     B6 = chk.rule('B6', 'cursor/remaining parsers: cursor advances and remaining-bytes decrements stay in lockstep, and every cursor-relative read is dominated by a fresh `remaining >= size` test')
     check_b6(lib, B6)
+    B7 = chk.rule('B7', 'argument type dispatch: for every combination of type bits the branch the renderer takes is covered by the class the argument iterator validated the length for')
+    check_dispatch_agreement(F, B7)
     # census of what no rule speaks about
     census = {}
     for b in lib:
@@ -960,3 +962,117 @@ def check_b6(lib, B6):
                                  (sl, b.loc(blk.term.sp), c, a, need_expr if need_expr else need_const, r, need_expr if need_expr else need_const), where=b.loc(blk.term.sp))
     B6.floor('cursor/remaining parsers', n_fn, 1)
     B6.floor('cursor-relative reads', n_reads, 4)
+
+
+# ---------------------------------------------------------------------------------------------
+# B7: the renderer and the argument iterator classify a type-info word the same way
+
+def _mask_fold(e):
+    if not isinstance(e, tuple):
+        return None
+    if e[0] == 'const' and isinstance(e[1], int):
+        return e[1]
+    if e[0] == 'cast':
+        return _mask_fold(e[1])
+    if e[0] == 'bin' and e[1] == 'BitOr':
+        a, b = _mask_fold(e[2]), _mask_fold(e[3])
+        return None if a is None or b is None else a | b
+    return None
+
+
+def type_dispatch_chain(body):
+    """the if / else-if chain over `type_info & MASK != 0` tests: [(mask, test block, true target, false target)] in
+    evaluation order (each test lies in the false region of the previous one)"""
+    cfg = CFG(body)
+    E = ExprBuilder(cfg, fold_named=True)
+    tests = {}
+    for blk in body.blocks:
+        if blk.cleanup or blk.term.k != 'switch' or [v for v, _ in blk.term.d['vals']] != [0]:
+            continue
+        c = E.switch_cond(blk)
+        if isinstance(c, tuple) and c[0] == 'bin' and c[1] in ('Ne', 'Gt') and c[3] == ('const', 0) and isinstance(c[2], tuple) and c[2][0] == 'bin' and c[2][1] == 'BitAnd' \
+                and show(c[2][2]).endswith('type_info'):
+            m = _mask_fold(c[2][3])
+            if m is not None:
+                tests[blk.i] = (m, blk.i, blk.term.d['otherwise'], blk.term.d['vals'][0][1])
+    best = []
+    for root in tests:
+        chain = [tests[root]]
+        cur = root
+        seen = {root}
+        while True:
+            f = tests[cur][3]
+            cands = [x for x in tests if x not in seen and cfg.dominates(f, x)]
+            nxt = [x for x in cands if all(cfg.dominates(x, y) for y in cands)]
+            if len(nxt) != 1:
+                break
+            cur = nxt[0]
+            seen.add(cur)
+            chain.append(tests[cur])
+        if len(chain) > len(best):
+            best = chain
+    return cfg, best
+
+
+def check_dispatch_agreement(F, B7):
+    """The renderer indexes `payload_raw[0]` for BOOL, matches on the length for integers and floats ... because the iterator has
+    validated the length *for that class* (BOOL: exactly one byte, SINT/UINT: at least one, FLOA: at least two, STRG/RAWD:
+    any).  A type-info word may carry several type bits (corrupt input, a flipped bit); both sides pick the first branch
+    that matches in their own if-chain.  The length the renderer relies on was only established if, for every combination
+    of type bits that the iterator lets through, the renderer's branch is covered by the iterator's class.  Decided
+    exhaustively over all combinations of the bits that occur in the two chains (finite)."""
+    it = [b for b in F.order if (b.impl_self or '').startswith('adlt::dlt::DltMessageArgIterator') and b.impl_trait == 'std::iter::Iterator' and b.path.endswith('::next')]
+    rd = F.get('adlt::dlt::DltMessage::process_msg_arg_iter')
+    if not it or rd is None:
+        B7.violation(('anchor-lost', 'iterator/renderer'), 'DltMessageArgIterator::next or DltMessage::process_msg_arg_iter not found')
+        return
+    B7.fn(it[0].path)
+    B7.fn(rd.path)
+    icfg, ichain = type_dispatch_chain(it[0])
+    rcfg, rchain = type_dispatch_chain(rd)
+    B7.floor('type tests in the dispatch chain of the argument iterator', len(ichain), 3)
+    B7.floor('type tests in the dispatch chain of the renderer', len(rchain), 4)
+    if len(ichain) < 3 or len(rchain) < 4:
+        return
+
+    def produces_item(body, cfg, start):
+        for x in cfg.reachable_from(start):
+            for s in body.blocks[x].stmts:
+                if s.k == 'assign' and s.rv['k'] == 'agg' and s.rv.get('variant') == 'Some':
+                    return True
+                if s.k == 'assign' and s.rv['k'] == 'agg' and (s.rv.get('adt') or '').endswith('DltArg'):
+                    return True
+        return False
+    iclasses = [(m, produces_item(it[0], icfg, t)) for (m, _b, t, _f) in ichain]
+    ielse = produces_item(it[0], icfg, ichain[-1][3])
+    rmasks = [m for (m, _b, _t, _f) in rchain]
+    # only renderer branches that index the raw value without a length test of their own depend on the iterator's class
+    rE = ExprBuilder(rcfg, fold_named=True)
+    needs = {}
+    for (m, _b, t, _f) in rchain:
+        region = set(x for x in range(rcfg.n) if x in rcfg.reach and rcfg.dominates(t, x))
+        import rawreads
+        need = bool(rawreads.unguarded_reads(F, rd, rcfg, rE, lambda sx: 'payload_raw' in sx, region))
+        needs[m] = need
+    B7.floor('renderer branches that index the raw value relying on the iterator (BOOL)', sum(1 for v in needs.values() if v), 1)
+    bits = sorted(set(1 << i for m in [x[0] for x in iclasses] + rmasks for i in range(32) if m & (1 << i)))
+    B7.sites += 1 << len(bits)
+    bad = []
+    for k in range(1, 1 << len(bits)):
+        p = sum(bit for j, bit in enumerate(bits) if k & (1 << j))
+        icls = next(((m, prod) for (m, prod) in iclasses if p & m), (0, ielse))
+        if not icls[1]:
+            continue        # the iterator yields nothing for this word
+        r = next((m for m in rmasks if p & m), None)
+        if r is None or not needs.get(r):
+            continue
+        if r & ~icls[0]:
+            bad.append((p, icls[0], r))
+    if bad:
+        p, im, rm = bad[0]
+        B7.violation(('dispatch-order', rd.path), 'a type-info word with bits 0x%x is classified by the argument iterator through its `& 0x%x` branch (whose length rule it then applied) but rendered by the `& 0x%x` branch of the renderer, '
+                     'which relies on the length rule of its own class (e.g. payload_raw[0] for BOOL): %d such combination(s) - an argument of the wrong length reaches code that indexes it (panic)' % (p, im, rm, len(bad)), where=rd.loc(None))
+    else:
+        B7.ok(sample={'iterator_order': ['0x%x' % m for (m, _p) in iclasses], 'renderer_order': ['0x%x' % m for m in rmasks], 'combinations_checked': (1 << len(bits)) - 1,
+                      'renderer_branches_relying_on_the_iterator': ['0x%x' % m for m, v in needs.items() if v],
+                      'each': 'renderer branch covered by the iterator class'})
